@@ -235,3 +235,30 @@ Example C09_table_hypotheses_hold :
   /\ to_float "1.250s" = Some (1250 # 1000).
 Proof. exact ex_table_hypotheses. Qed.
 Print Assumptions C09_table_hypotheses_hold.
+
+(* the deadline on every surface (grpc, grpc_asyncio, sync and asyncio REST) and for both shapes of rpc (unary, server
+   streaming): what the transport hands down for an attempt bounds connecting AND reading by the attempt's timeout -
+   the whole timeout on the first attempt, never more on later ones, never unbounded.  hand_down is tied to the emitted
+   _get_response of the REST stubs (timeout= keyword read with ast, T1) and to the session / channel arguments recorded
+   by the driver (T2) *)
+Theorem C09_deadline_on_every_surface : forall jitter : nat -> Q -> Q,
+  (forall i d, 0 <= d -> 0 <= jitter i d /\ jitter i d <= d) ->
+  forall s sh r T rep script,
+  (exists h x, hd_error (wire s sh (run jitter r (Some T) (rep :: script))) = Some h /\
+               read_deadline h = Some x /\ connect_deadline h = Some x /\ x == T) /\
+  (forall p, r = Some p -> 0 <= r_initial p -> 0 <= r_maximum p -> 0 <= r_multiplier p ->
+     Forall (fun h => exists x, read_deadline h = Some x /\ connect_deadline h = Some x /\ x <= T)
+            (wire s sh (run jitter r (Some T) (rep :: script)))).
+Proof. exact deadline_on_every_surface. Qed.
+Print Assumptions C09_deadline_on_every_surface.
+
+(* a server stream over sync REST, 7.5 s and two retryable faults: 7.5, 7, 6.35 seconds; and what the theorem excludes:
+   a (connect, read) pair whose read part is None carries no read deadline *)
+Example C09_server_stream_over_rest :
+  list_eqb handed_eqb
+    (wire SRest ServerStreaming
+          (run jitter_max (Some ex_params) (Some (15 # 2)) [Err "UNAVAILABLE"; Err "UNAVAILABLE"; Ok]))
+    [Scalar (Some (15 # 2)); Scalar (Some (7 # 1)); Scalar (Some (127 # 20))] = true
+  /\ map read_deadline [Pair (Some (15 # 2)) None] = [None].
+Proof. exact ex_server_stream_over_rest. Qed.
+Print Assumptions C09_server_stream_over_rest.
